@@ -3,7 +3,7 @@
    Z / N / positive / nat stay the extracted inductives.  No Extract Constant. *)
 From Coq Require Extraction ExtrOcamlBasic.
 From Pyctr Require Import Base.Prelude Base.ListExt Base.PyInt Base.PySlice Base.PyStr.
-From Pyctr Require Import Spec.Scrambler Model.Engine Env.PyFile Model.Window.
+From Pyctr Require Import Spec.Scrambler Model.Engine Env.PyFile Model.Window Env.FileIface Spec.StreamCipher Env.Cipher Model.CtrIO Proofs.WindowProofs.
 
 Extraction Language OCaml.
 Set Extraction KeepSingleton.
@@ -12,4 +12,5 @@ Separate Extraction
   PyInt.le_decode PyInt.be_decode PyInt.le_encode PyInt.be_encode
   Engine.run Engine.dump Engine.engine0 Engine.normal_for
   PyFile.pf_read PyFile.pf_seek PyFile.pf_write PyFile.pf_tell
-  Window.win_run.
+  Window.win_run
+  FileIface.pyfile_ops WindowProofs.window_ops CtrIO.ctr_run StreamCipher.stream_dec StreamCipher.cbc_dec.
